@@ -100,10 +100,85 @@ SPEC = [
 ]
 
 
+def _helper_sites(facts, f, file, suffix):
+    """A check moved into a private helper: functions of the same source file that `f` calls directly and that call `suffix`
+    themselves -> [(helper Fn, its sites of `suffix`, f's calls of the helper)]"""
+    out = []
+    seen = set()
+    for b, t in f.calls():
+        c = callee(t)
+        if c in seen or c == f.name or c not in facts.fns:
+            continue
+        seen.add(c)
+        meta = facts.fns.meta(c)
+        if meta[1] == "Closure" or not (meta[4] or "").endswith(file):
+            continue
+        g = facts.fn(c)
+        gs = protocol.calls_matching(g, suffix) if g is not None else []
+        if gs:
+            out.append((g, gs, [(bb, tt_) for bb, tt_ in f.calls() if callee(tt_) == c]))
+    return out
+
+
 def run_spec(chk, facts):
     rule_h = "C11.HONOR"
     rule_m = "C11.MUSTPASS"
-    nh = nm = 0
+    cnt = {"h": 0, "m": 0}
+
+    def eval_ob(f, succ, fname, kind, suffix, arg, sites, via=""):
+        label = "%s:%s%s" % (fname.split("::")[-1], suffix.split("::")[-1], via)
+        if kind in ("result", "variant", "bool"):
+            for b, t in sites:
+                if kind == "result":
+                    ok, det = protocol.honor_result(f, b, succ)
+                    text = "%s: %s" % (suffix.split("::")[-1], det)
+                elif kind == "variant":
+                    ok, det = protocol.honor_variant(f, b, set(arg), succ)
+                    if ok is None:
+                        ok, det = protocol.honor_result(f, b, succ)
+                    text = "%s: %s" % (suffix.split("::")[-1], det)
+                else:
+                    ok, det = protocol.honor_bool(f, b, arg, succ)
+                    text = "%s must be %s to succeed: %s" % (suffix.split("::")[-1], arg, det)
+                cnt["h"] += 1
+                chk.ob(rule_h, "%s@L%s" % (label, t[1].get("l")), ok, text + via,
+                       where=f.where(t[1].get("l")), fn=f.name, key="%s:%s:%s" % (rule_h, fname, suffix),
+                       sample={"fn": short(f.name), "check": suffix, "how": det})
+            return
+        K = {b for b, t in sites}
+        if arg == "entry":
+            ok = protocol.must_pass(f, 0, succ, K)
+            det = "every path from entry to a success return crosses it"
+        elif arg == "loop":
+            ok = True
+            det = "every path through the loop body crosses it"
+            found = False
+            for b in K:
+                lp = protocol.loop_of(f, b)
+                if lp is None:
+                    continue
+                found = True
+                head, some = lp
+                if not protocol.must_pass(f, some, {head} | succ, K):
+                    ok = False
+            if not found:
+                ok = False
+                det = "the call is not inside a loop over the data items"
+        else:
+            _, test, pol = arg
+            tests = protocol.calls_matching(f, test)
+            ok = bool(tests)
+            det = "on the %s edge of %s every path to success crosses it" % (str(pol).lower(), test.split("::")[-1])
+            for tb, tt_ in tests:
+                for sb, m in protocol.bool_edges(f, tb):
+                    if not protocol.must_pass(f, m[pol], succ, K):
+                        ok = False
+        cnt["m"] += 1
+        chk.ob(rule_m, "%s(%s)" % (label, arg if isinstance(arg, str) else arg[2]), ok,
+               "%s in %s: %s: %s%s" % (suffix.split("::")[-1], fname.split("::")[-1], det, ok, via),
+               where=f.where(sites[0][1][1].get("l")), fn=f.name, key="%s:%s:%s" % (rule_m, fname, suffix),
+               sample={"fn": short(f.name), "check": suffix, "scope": arg if isinstance(arg, str) else list(arg)})
+
     for (file, fname), obligations in SPEC:
         f = find_fn(chk, facts, rule_m, file, fname)
         if f is None:
@@ -111,71 +186,31 @@ def run_spec(chk, facts):
         succ = protocol.success_targets(f)
         for kind, suffix, arg in obligations:
             sites = protocol.calls_matching(f, suffix)
-            label = "%s:%s" % (fname.split("::")[-1], suffix.split("::")[-1])
-            if not sites:
+            if sites:
+                eval_ob(f, succ, fname, kind, suffix, arg, sites)
+                continue
+            # the check may have been extracted into a private helper of the same file (one level): it must be honoured there,
+            # on every path of the helper, and the helper's own verdict must be honoured here in the check's place
+            via = _helper_sites(facts, f, file, suffix)
+            if not via:
+                label = "%s:%s" % (fname.split("::")[-1], suffix.split("::")[-1])
                 chk.ob(rule_m if kind == "must" else rule_h, label, False,
-                       "no call of %s in %s: the check is gone" % (suffix, short(f.name)), where=f.where(), fn=f.name,
+                       "no call of %s in %s (nor in a helper of the same file it calls): the check is gone" % (suffix, short(f.name)), where=f.where(), fn=f.name,
                        key="%s:%s:%s:missing" % (rule_m, fname, suffix))
                 continue
-            if kind == "result":
-                for b, t in sites:
-                    ok, det = protocol.honor_result(f, b, succ)
-                    nh += 1
-                    chk.ob(rule_h, "%s@L%s" % (label, t[1].get("l")), ok, "%s: %s" % (suffix.split("::")[-1], det),
-                           where=f.where(t[1].get("l")), fn=f.name, key="%s:%s:%s" % (rule_h, fname, suffix),
-                           sample={"fn": short(f.name), "check": suffix, "how": det})
-            elif kind == "variant":
-                for b, t in sites:
-                    ok, det = protocol.honor_variant(f, b, set(arg), succ)
-                    if ok is None:
-                        ok, det = protocol.honor_result(f, b, succ)
-                    nh += 1
-                    chk.ob(rule_h, "%s@L%s" % (label, t[1].get("l")), ok, "%s: %s" % (suffix.split("::")[-1], det),
-                           where=f.where(t[1].get("l")), fn=f.name, key="%s:%s:%s" % (rule_h, fname, suffix),
-                           sample={"fn": short(f.name), "check": suffix, "how": det})
-            elif kind == "bool":
-                for b, t in sites:
-                    ok, det = protocol.honor_bool(f, b, arg, succ)
-                    nh += 1
-                    chk.ob(rule_h, "%s@L%s" % (label, t[1].get("l")), ok, "%s must be %s to succeed: %s" % (suffix.split("::")[-1], arg, det),
-                           where=f.where(t[1].get("l")), fn=f.name, key="%s:%s:%s" % (rule_h, fname, suffix),
-                           sample={"fn": short(f.name), "test": suffix, "good": arg, "how": det})
-            elif kind == "must":
-                K = {b for b, t in sites}
-                if arg == "entry":
-                    ok = protocol.must_pass(f, 0, succ, K)
-                    det = "every path from entry to a success return crosses it"
-                elif arg == "loop":
-                    ok = True
-                    det = "every path through the loop body crosses it"
-                    found = False
-                    for b in K:
-                        lp = protocol.loop_of(f, b)
-                        if lp is None:
-                            continue
-                        found = True
-                        head, some = lp
-                        if not protocol.must_pass(f, some, {head} | succ, K):
-                            ok = False
-                    if not found:
-                        ok = False
-                        det = "the call is not inside a loop over the data items"
+            for g, gsites, fsites in via:
+                chk.functions.add(g.name)
+                gsucc = protocol.success_targets(g)
+                tag = " [via helper %s]" % g.name.split("::")[-1]
+                if kind == "must":
+                    eval_ob(g, gsucc, fname, "must", suffix, "entry", gsites, tag)
+                    eval_ob(f, succ, fname, "must", suffix, arg, fsites, tag)
                 else:
-                    _, test, pol = arg
-                    tests = protocol.calls_matching(f, test)
-                    ok = bool(tests)
-                    det = "on the %s edge of %s every path to success crosses it" % (str(pol).lower(), test.split("::")[-1])
-                    for tb, tt_ in tests:
-                        for sb, m in protocol.bool_edges(f, tb):
-                            if not protocol.must_pass(f, m[pol], succ, K):
-                                ok = False
-                nm += 1
-                chk.ob(rule_m, "%s(%s)" % (label, arg if isinstance(arg, str) else arg[2]), ok,
-                       "%s in %s: %s: %s" % (suffix.split("::")[-1], fname.split("::")[-1], det, ok),
-                       where=f.where(sites[0][1][1].get("l")), fn=f.name, key="%s:%s:%s" % (rule_m, fname, suffix),
-                       sample={"fn": short(f.name), "check": suffix, "scope": arg if isinstance(arg, str) else list(arg)})
-    chk.floor(rule_h, "honoured checks", nh, 27)
-    chk.floor(rule_m, "must-pass obligations", nm, 20)
+                    eval_ob(g, gsucc, fname, kind, suffix, arg, gsites, tag)
+                    eval_ob(g, gsucc, fname, "must", suffix, "entry", gsites, tag)
+                    eval_ob(f, succ, fname, "result", suffix, None, fsites, tag)
+    chk.floor(rule_h, "honoured checks", cnt["h"], 27)
+    chk.floor(rule_m, "must-pass obligations", cnt["m"], 20)
 
 
 def euids_traversal(chk, facts):
